@@ -105,6 +105,38 @@ fn attach_probe(p: &mut Parsed, roots: Option<(&[u8], &mut Rec)>) -> Arc<Mutex<P
     out
 }
 
+pub const MARKER: i64 = 0x4d41_524b_4552_5f5f;
+
+/// Edit through the public API: splice `i64.const MARKER; drop` (type-neutral) into seeded positions of
+/// seeded instruction sequences of every local function. Returns the number of insertions.
+pub fn insert_markers(m: &mut walrus::Module, seed: u64) -> u64 {
+    use walrus::ir::{self, Visitor};
+    struct Seqs(Vec<ir::InstrSeqId>);
+    impl<'a> Visitor<'a> for Seqs {
+        fn start_instr_seq(&mut self, s: &'a ir::InstrSeq) {
+            self.0.push(s.id());
+        }
+    }
+    let mut rng = wv_gen::rng::Rng::new(seed ^ 0xED17);
+    let mut n = 0;
+    for (_, f) in m.funcs.iter_local_mut() {
+        let mut v = Seqs(vec![]);
+        ir::dfs_in_order(&mut v, f, f.entry_block());
+        for sid in v.0 {
+            if !rng.chance(1, 2) {
+                continue;
+            }
+            let mut b = f.builder_mut().instr_seq(sid);
+            let len = b.instrs().len();
+            let pos = rng.usize(len + 1);
+            b.const_at(pos, ir::Value::I64(MARKER));
+            b.drop_at(pos + 1);
+            n += 1;
+        }
+    }
+    n
+}
+
 fn log_probe(rec: &mut Rec, label: &str, out: &Arc<Mutex<ProbeOut>>) {
     let o = out.lock().unwrap();
     rec.push_n(&format!("ct.calls.{}", label), o.transform_calls);
@@ -157,6 +189,12 @@ pub fn run(input: &[u8], scn: &str, rec: &mut Rec) {
         }
     }
     if o.has("emit") {
+        if o.has("ins") {
+            match guarded(|| insert_markers(&mut p.module, wv_gen::rng::fnv64(input))) {
+                Ok(n) => rec.push_n("inserted", n),
+                Err(pan) => rec.push_s("panic.insert", &pan),
+            }
+        }
         let pr = if probe { Some(attach_probe(&mut p, None)) } else { None };
         let first = emit_into(rec, "emit", &mut p.module);
         if let Some(pr) = &pr {
